@@ -83,7 +83,7 @@ pub fn run_property(prop: &str, tier: Tier, seed: u64, scale: f64) -> i32 {
         "C08" => vec![batch(&Pair { mode: PairMode::Differential }, tier, seed, 50_000, 800_000, scale)],
         "C13" => vec![
             batch(&Offer { mode: OfferMode::Heads }, tier, seed, 60_000, 1_500_000, scale),
-            batch(&Decoders { mode: PureMode::Heads }, tier, seed, 20_000, 500_000, scale),
+            batch(&Decoders { mode: PureMode::Heads }, tier, seed, 30_000, 600_000, scale),
         ],
         _ => {
             eprintln!("harness error: unknown property {prop}");
